@@ -3,7 +3,7 @@
    normalisation the decoder has read exactly as many bytes as the encoder state has digits, its
    range is the encoder's range and its code is the distance of the bytes read from the
    encoder's lower end.  Proofs only. *)
-From LzVerif Require Import Base.Bytes Codec.Store Codec.Range Codec.ProbProofs Codec.RangeArith.
+From LzVerif Require Import Base.Bytes Codec.Store Codec.Range Codec.ProbProofs Codec.RangeArithProofs.
 From LzVerif Require Import Codec.LzmaDec Codec.LzmaEnc Codec.RangeEncProofs.
 Ltac Zify.zify_post_hook ::= Z.div_mod_to_equations.
 
